@@ -135,9 +135,11 @@ impl LruPageCache {
                 PAGE_SIZE - offset_in_page
             );
             
-            // Copy data from the page
-            let page_end = offset_in_page + bytes_to_copy;
-            if page_end <= page_data.len() {
+            // Copy data from the page; a short last page (end of file) holds
+            // fewer than PAGE_SIZE bytes, so clip the range to what is there
+            // instead of dropping the bytes that do exist
+            let page_end = std::cmp::min(offset_in_page + bytes_to_copy, page_data.len());
+            if offset_in_page < page_end {
                 result_buffer.extend_from_slice(&page_data[offset_in_page..page_end]);
             }
             
